@@ -7,6 +7,21 @@ NOTES = ("exit 0 = every obligation generated from /repo's working tree discharg
          "timeout) - never an alarm. See DESIGN.md.")
 
 CHECKS = {
+    "C13": {
+        "text": "Proof (Verus on the verbatim run conditions of common_conditions.rs and the status accessors they use): each condition returns exactly the stated function of the client/server status "
+                "(None = app built without that side); lemma over the contracts: for every Option<RepliconClient> at most one of 'send to the remote server' / 're-emit locally' is enabled, neither while connecting, "
+                "exactly one otherwise; each *_just_* condition is an edge detector (fires iff the stored flag records the opposite state, and stores the current one).",
+        "design_ref": "DESIGN.md §4 U13, §5 C13",
+        "note": "Per-frame exclusivity only. Not covered: the cross-frame clause (an event already read and still in Bevy's double buffer when the status changes), recipient logic of resend_locally_typed, 'nothing is put on the network' (RepliconClient::send, generic Into). Res/Local are modelled as references.",
+        "technique": "contract-based deductive verification: Verus requires/ensures (incl. closure contracts) woven onto verbatim-extracted functions, plus a lemma over those contracts",
+    },
+    "C17": {
+        "text": "Proof on the real example-backend code (Kani): TimedMessage ordering contract for any queued messages - never Equal for distinct queued messages, antisymmetric, transitive, refining (timestamp, insertion order) - full domain over timestamps; "
+                "bounded: FIFO delivery exactly once with payload/channel unchanged for 3 queued messages on the real BinaryHeap.",
+        "design_ref": "DESIGN.md §4 U14, §5 C17",
+        "note": "Receive-queue ordering only (config = None path). Beyond 3 queued messages FIFO rests on the proved ordering contract plus BinaryHeap's documented contract. Not covered: TCP framing and socket behaviour (I/O).",
+        "technique": "contract-based deductive verification: Kani/CBMC contract harnesses (full-domain symbolic timestamps) on the real crate; one bounded stand-in on the real BinaryHeap, labelled",
+    },
     "C03": {
         "text": "Proof, unbounded (Verus on the verbatim ServerEntityMap and its entry API): the two maps stay exact inverses of each other under every entry operation, under insert given its (weakest) precondition, and clear; "
                 "plus exactness of the range/count bookkeeping update messages are assembled from (ChangeRanges::add_component, Updates::add_despawn) and of UpdateMessageFlags::last (Kani, all 255 flag sets).",
@@ -73,9 +88,7 @@ NOT_APPLICABLE = {
     "C05": "Recipient selection iterates a Bevy Query with closure filters; exactly-once is a property of Bevy's double-buffered Events<E> across frames; typed plumbing is unsafe pointer casts over generics.",
     "C07": "Holds by absence of components on the client entity and by query filters in send_replication/send_all; there is no function whose contract states it.",
     "C09": "Mechanisms are Bevy systems gated by run conditions and message purges using retain closures / generic Into (not extractable for Verus, Kani timeout). Reachable container resets are proved under C03/C12 but do not amount to the property.",
-    "C13": PLANNED,
     "C14": "Distinctness of hashes is not a theorem (FNV-1a collides); determinism rests on any::type_name (compiler intrinsic) and a derived Hash; the authorizing comparison is a Bevy observer.",
     "C16": "Mechanisms are collect_mappings (Query), Updates::send (out of reach) and apply_entity_mapping (World). The only reachable fact (ServerEntityMap::insert then server_entry is Occupied) is proved under C03.",
-    "C17": PLANNED,
     "C18": "replicate_into is reflection (TypeRegistry, ReflectComponent, FromReflect) over World archetypes; neither tool can bring it within reach and a shim would be a model of Bevy reflection.",
 }
